@@ -18,7 +18,7 @@ def Born (h : List Sys) (N q : Nat) (e : Entry) : Prop :=
     st.raft.term = e.term ∧ st.raft.raftLog.abs.entryAt q = some e ∧
     ∀ k e', st.raft.raftLog.abs.entryAt k = some e' → q ≤ k → e'.term = e.term
 
-theorem entry_prov (H : Hyp2 cfg c0 h) :
+theorem entry_prov (H : Hyp2w cfg c0 h) :
     ∃ s0, h[0]? = some s0 ∧ ∀ (n : Nat) (s : Sys), h[n]? = some s → ∀ loc g, At s loc g →
       ∀ q e, g.entryAt q = some e → EntriesOf s0 e ∨ Born h n q e := by
   obtain ⟨s0, h0, hall⟩ := H.inv_at
@@ -57,7 +57,7 @@ theorem node_back_steps {s s' : Sys} (hs : Steps s s') (l : Nat) :
     exact ih stb hb
 
 /-- the initial term of node `l` is below every term it ever leads -/
-theorem lead_above_init (H : Hyp2 cfg c0 h) {s0 : Sys} (h0 : h[0]? = some s0) {l : Nat}
+theorem lead_above_init (H : Hyp2w cfg c0 h) {s0 : Sys} (h0 : h[0]? = some s0) {l : Nat}
     {st0 : NState} (hl0 : s0.node l = some st0) {n : Nat} {s : Sys} (hn : h[n]? = some s) {t : Nat}
     (hl : leads s l t) : st0.raft.term < t := by
   obtain ⟨_, sto, hboot, _, _, _⟩ := H.init s0 h0
@@ -74,7 +74,7 @@ theorem lead_above_init (H : Hyp2 cfg c0 h) {s0 : Sys} (h0 : h[0]? = some s0) {l
   · rcases c2 with c2 | c2 <;> rw [hst] at c2 <;> cases c2
 
 /-- an entry of the initial state has a term below every term that is ever led -/
-theorem init_entry_term (H : Hyp2 cfg c0 h) {s0 : Sys} (h0 : h[0]? = some s0) {e : Entry}
+theorem init_entry_term (H : Hyp2w cfg c0 h) {s0 : Sys} (h0 : h[0]? = some s0) {e : Entry}
     (he : EntriesOf s0 e) {n : Nat} {s : Sys} (hn : h[n]? = some s) {l t : Nat}
     (hl : leads s l t) : e.term < t := by
   obtain ⟨hnet, sto, hboot, hwf, _, hbound⟩ := H.init s0 h0
